@@ -369,7 +369,8 @@ ASSUME = ['segments with back-references, look-around, inline flags or unbalance
 
 
 def main(argv):
-    return run_check('C03', [CompileStream(), FitsStream(), CheckerHistoryStream()], argv, trusted_base=TRUSTED, assumptions=ASSUME)
+    return run_check('C03', [CompileStream(), FitsStream(), CheckerHistoryStream()], argv, trusted_base=TRUSTED, assumptions=ASSUME,
+                     translated=('checker',))
 
 
 if __name__ == '__main__':
